@@ -1252,10 +1252,13 @@ impl Invariant for Inv01 {
 fn explore_tree(tree: &Tree, inst: &str, sc: &uni::Scratch, tier: Tier, shard: usize, n: usize, rep: &mut Report) {
 	let n_valid = (0..tree.blocks.len()).filter(|i| tree.valid(*i).is_ok()).count();
 	let mut inv = Inv01 { inst: inst.to_string(), thorough: tier == Tier::Thorough, n_valid, seen: HashSet::new(), cache: HashMap::new() };
-	let mut ex = Explorer::new(tree, sc, Options::NONE, inst);
+	// lifting blocks p1..pN (version-5 variants of the universes) are applied once, below every history
+	let is_lift = |i: usize| tree.blocks[i].name.starts_with('p');
+	let prelude: Vec<Ev> = (0..tree.blocks.len()).filter(|i| is_lift(*i)).map(Ev::B).collect();
+	let mut ex = Explorer::with_prelude(tree, sc, Options::NONE, inst, &prelude);
 	ex.live_check = tier.pick(1, 2);
 	ex.shard = (shard, n);
-	let evs: Vec<Ev> = (0..tree.blocks.len()).filter(|i| tree.valid(*i).is_ok()).map(Ev::B).collect();
+	let evs: Vec<Ev> = (0..tree.blocks.len()).filter(|i| !is_lift(*i) && tree.valid(*i).is_ok()).map(Ev::B).collect();
 	let mut probes: Vec<Ev> = (0..tree.blocks.len()).filter(|i| tree.valid(*i).is_err()).map(Ev::B).collect();
 	if tier == Tier::Thorough {
 		probes.push(Ev::Reopen);
@@ -1269,16 +1272,22 @@ fn histories(tier: Tier, shard: usize, n: usize) -> Report {
 	let mut rep = Report::new();
 	let sc = uni::Scratch::new("c01h");
 	let variants = tier.pick(1, 2);
-	for v in 0..variants {
-		let scr = &sc;
-		guarded(&format!("A{}", v), &mut rep, move |rep| {
-			let t = c02::universe_a(scr, v);
-			explore_tree(&t, &format!("A{}", v), scr, tier, shard, n, rep);
-		});
-		guarded(&format!("B{}", v), &mut rep, move |rep| {
-			let t = c02::universe_b(scr, v);
-			explore_tree(&t, &format!("B{}", v), scr, tier, shard, n, rep);
-		});
+	// thorough: each universe also lifted by 12 empty blocks (version-5 headers throughout)
+	let lifts: Vec<usize> = tier.pick(vec![0], vec![0, 12]);
+	for lift in lifts {
+		for v in 0..variants {
+			let scr = &sc;
+			let tag = if lift == 0 { String::new() } else { format!("+{}", lift) };
+			let (ia, ib) = (format!("A{}{}", v, tag), format!("B{}{}", v, tag));
+			guarded(&ia.clone(), &mut rep, move |rep| {
+				let t = c02::universe_a_lifted(scr, v, lift);
+				explore_tree(&t, &ia, scr, tier, shard, n, rep);
+			});
+			guarded(&ib.clone(), &mut rep, move |rep| {
+				let t = c02::universe_b_lifted(scr, v, lift);
+				explore_tree(&t, &ib, scr, tier, shard, n, rep);
+			});
+		}
 	}
 	rep
 }
@@ -1331,11 +1340,23 @@ impl Engine for C01 {
 			};
 		}
 		let inst = case["instance"].as_str().unwrap_or("");
-		let v: usize = inst.get(1..).and_then(|s| s.parse().ok()).unwrap_or(0);
-		let tree = if inst.starts_with('A') { c02::universe_a(&sc, v) } else { c02::universe_b(&sc, v) };
+		let (vs, lift) = match inst.get(1..).unwrap_or("").split_once('+') {
+			Some((a, b)) => (a.to_string(), b.parse().unwrap_or(0usize)),
+			None => (inst.get(1..).unwrap_or("").to_string(), 0usize),
+		};
+		let v: usize = vs.parse().unwrap_or(0);
+		let tree = if inst.starts_with('A') { c02::universe_a_lifted(&sc, v, lift) } else { c02::universe_b_lifted(&sc, v, lift) };
 		// re-run the history and re-check the invariants on its last state
 		let dir = sc.fresh("r");
 		let mut live = Live::open(&tree, &dir, Options::NONE);
+		for i in 0..tree.blocks.len() {
+			if tree.blocks[i].name.starts_with('p') {
+				let o = live.apply(&Ev::B(i));
+				if !o.ok {
+					return Err(format!("lifting block {} refused: {}", tree.blocks[i].name, o.err));
+				}
+			}
+		}
 		let mut inv = Inv01 { inst: inst.to_string(), thorough: true, n_valid: 0, seen: HashSet::new(), cache: HashMap::new() };
 		let mut rep = Report::new();
 		let mut prefix = vec![];
